@@ -2,6 +2,7 @@ package j5schema
 
 import (
 	"fmt"
+	"sync"
 
 	"github.com/pentops/j5/gen/j5/ext/v1/ext_j5pb"
 	"google.golang.org/protobuf/proto"
@@ -9,7 +10,13 @@ import (
 )
 
 // SchemaCache acts like PackageSet, but builds schemas on demand from reflection.
+// It is safe for concurrent use: lookups and builds are serialized by mu.
 type SchemaCache struct {
+	// mu guards packages and the Schemas map of every Package in it. It is
+	// held for the whole of Schema, including the build of a missing schema,
+	// so that half-built placeholders are never visible to other callers.
+	// refTo and referencePackage are only called from within a build.
+	mu       sync.Mutex
 	packages map[string]*Package
 }
 
@@ -21,6 +28,9 @@ func NewSchemaCache() *SchemaCache {
 
 // Schema returns the J5 schema for the given message descriptor.
 func (sc *SchemaCache) Schema(src protoreflect.MessageDescriptor) (RootSchema, error) {
+	sc.mu.Lock()
+	defer sc.mu.Unlock()
+
 	packageName, nameInPackage := splitDescriptorName(src)
 	schemaPackage := sc.referencePackage(packageName)
 	if built, ok := schemaPackage.Schemas[nameInPackage]; ok {
